@@ -293,6 +293,8 @@ pub fn run(ctx: &mut Ctx) {
                 let res = fix_result(&res);
                 format!("{} T {}{}", res, n, toks)
             });
+            let an = take_anomalies();
+            if !an.is_empty() || produced % 16 == 0 { ctx.emit_anomalies(&format!("sched {}", ctx.index - 1), an); }
             let _ = &mut stats;
             produced += 1;
             ctx.count("invocations");
